@@ -38,8 +38,8 @@ def kwIn : Bytes := [0x69, 0x6E]
 
 /-- what follows the opening delimiter `d`, up to and including the closing one, under the scanning rule
     "a backslash escapes the next code point": a sequence of escape pairs (`\` and any code point) and of code points
-    other than `\` and `d`, closed by `d`.  In particular a delimiter byte inside is always preceded by an odd run of
-    backslashes, and every code point is a well-formed UTF-8 encoding of a scalar value. -/
+    other than `\` and `d`, closed by `d`.  (Informally: a delimiter byte inside is always preceded by an odd run of
+    backslashes.)  Every code point is a well-formed UTF-8 encoding of a scalar value. -/
 inductive DelimBody (d : Nat) : Bytes → Prop
   | close : DelimBody d [d]
   | esc (c : Nat) (w : Bytes) : isScalar c = true → DelimBody d w → DelimBody d (0x5C :: (encodeRune c ++ w))
